@@ -493,6 +493,9 @@ func runWorkload(t *rapid.T, run c04Run, st *vfkit.Collector, label string) {
 	clean := p.Terminate(10 * time.Second)
 	out := p.Stderr()
 	races := p.Races()
+	if c := p.Crashed(); c != "" {
+		t.Fatalf("proxy crashed / canary fired: %s\n(first client-side error: %v)\nrun: %+v", c, firstErr.Load(), run)
+	}
 	if e := firstErr.Load(); e != nil {
 		t.Fatalf("%v\nrun: %+v", e, run)
 	}
